@@ -22,7 +22,8 @@ VARIABLES mode, phase, hist, last
 vars == <<mode, phase, hist, last>>
 view == <<mode, phase>>
 
-AllOps == {"Push", "Raw", "InClearRtp", "InClearRtcp", "InForged", "InValid", "Keys", "Close"}
+AllOps == {"Push", "Raw", "InClearRtp", "InClearRtcp", "InForged", "InValid", "Keys", "Close",
+           "InValidNack", "Gap", "KeyFrame", "Report"}
 Required == mode # "Rtp"
 
 Init ==
@@ -59,6 +60,11 @@ In(op, auth) ==
   /\ UNCHANGED <<mode, phase>>
 \* (whether accepted feedback becomes visible - key-frame request, retransmission - depends on the media: not exact)
 InRtcp == Step("InClearRtcp", "", Deliver("clear"), "clear", 0) /\ UNCHANGED <<mode, phase>>
+\* Egress sources above the transport (the statement lists them): retransmission answering an authenticated NACK,
+\* the receiver's NACK for a hole in valid media, a key-frame request of the application (PLI/FIR), the periodic
+\* sender report. Whether and when they fire depends on media state, so the expectation is not exact; what they put
+\* on the wire is judged like any other datagram.
+Source(op, auth) == Step(op, Egress, IF auth = "valid" THEN Deliver("valid") ELSE 0, auth, 0) /\ UNCHANGED <<mode, phase>>
 Keys == phase = "up" /\ phase' = "keyed" /\ Step("Keys", "", 0, "none", 0) /\ UNCHANGED mode
 Close == phase # "closed" /\ phase' = "closed" /\ Step("Close", Egress, 0, "none", 1) /\ UNCHANGED mode
 
@@ -69,6 +75,10 @@ Do(op) ==
     [] op = "InClearRtcp" -> InRtcp
     [] op = "InForged" -> In(op, "forged")
     [] op = "InValid" -> In(op, "valid")
+    [] op = "InValidNack" -> Source(op, "valid")
+    [] op = "Gap" -> Source(op, "valid")
+    [] op = "KeyFrame" -> Source(op, "none")
+    [] op = "Report" -> Source(op, "none")
     [] op = "Keys" -> Keys
     [] op = "Close" -> Close
 
